@@ -425,6 +425,10 @@ func (r *rewriter) rewriteSelect(s *ast.SelectStmt, p *plan) *ast.BlockStmt {
 		sw.Body.List = append(sw.Body.List, &ast.CaseClause{List: []ast.Expr{&ast.BasicLit{Kind: token.INT, Value: strconv.Itoa(n)}}, Body: body})
 		n++
 	}
+	if !hasDefault {
+		// keeps "select as terminating statement" semantics (Select never returns another index)
+		sw.Body.List = append(sw.Body.List, &ast.CaseClause{Body: []ast.Stmt{&ast.ExprStmt{X: call(ast.NewIdent("panic"), &ast.BasicLit{Kind: token.STRING, Value: `"vrt: unreachable select index"`})}}})
+	}
 	args := append([]ast.Expr{ast.NewIdent(strconv.FormatBool(hasDefault))}, cases...)
 	blk.List = append(blk.List,
 		&ast.AssignStmt{Lhs: []ast.Expr{idx, rv, okv}, Tok: token.DEFINE, Rhs: []ast.Expr{call(vrtSel("Select"), args...)}},
